@@ -346,7 +346,7 @@ theorem syncedWith_fresh {s : Store} {name : String} {limit : Nat} {cl : Cluster
 
 /-- two proxies, one 4-node cluster -/
 def runOps : List Op :=
-  [.addProxy "p1:1" "p1:11" "p1:12" none, .addProxy "p2:1" "p2:11" "p2:12" none, .addCluster "c" 4 [("p1:1", "p2:1")]]
+  [.addProxy "p1:1" "p1:11" "p1:12" none none, .addProxy "p2:1" "p2:11" "p2:12" none none, .addCluster "c" 4 [("p1:1", "p2:1")]]
 
 theorem runOps_bound : ∀ k, Plan.PlanBound (run (runOps.take k)) := by
   intro k
